@@ -8,6 +8,7 @@ import NutsModel.C16.Spec
 import NutsModel.Facts.C16
 import NutsProofs.Lemmas.C16
 import NutsProofs.Lemmas.C16Node
+import NutsProofs.Props.C16
 
 namespace Nuts.C16.Props
 open Nuts Nuts.C16
@@ -60,6 +61,12 @@ theorem fact_api_timestamp_default :
 theorem fact_update_all_shape :
     Facts.C16.updateAllShape = ["range u.services", "if err != nil", "err := u.updateService(ctx, service)",
       "result = errors.Join(result, err)", "return result"] := by decide
+
+/-- one refresh cycle of `Module.update`: own registrations first, then every list is polled, then the pending entries
+    are verified again, then revoked ones are purged; no step's failure ends the cycle (no `return` in `do`) -/
+theorem fact_update_cycle_order :
+    Facts.C16.updateCycleCalls = ["m.registrationManager.refresh", "m.clientUpdater.update", "m.registrationManager.validate",
+      "m.registrationManager.removeRevoked"] := by decide
 
 /-! ### `Module.Configure` -/
 
@@ -416,6 +423,59 @@ theorem forged_retraction_never_flagged (d : Def) (now seed ts ctr : Nat) (c c' 
   rw [client_flags_iff_verified d now seed ts ctr c c' vp row subj m id hs hi hk h,
     if_neg (retraction_unverifiable_once_stored d .client c c' now seed ts (ctr + 1) vp row h hr hj)]
 
+/-! ### store.go `search` with a query (`applyQuery`) -/
+
+/-- `applyQuery`'s column map and comparison operators -/
+theorem fact_query_columns :
+    Facts.C16.queryColumns = [("id", "credential.id"), ("issuer", "credential.issuer"), ("type", "credential.type"),
+      ("credentialSubject.id", "credential.subject_id")] ∧
+    Facts.C16.queryOps = ["= ?", "is not null", "LIKE ?", "LIKE ?"] ∧
+    Facts.C16.queryJoins = ["inner join discovery_credential ON discovery_credential.presentation_id = discovery_presentation.id",
+      "inner join credential ON credential.id = discovery_credential.credential_id"] := by decide
+
+/-- a query only ever narrows the plain search: same order, nothing added -/
+theorem searchQ_sublist_search (s : Store) (now : Nat) (ix : Row → List CredIx) (cols : List (String × String)) (ci : Bool)
+    (q : List (String × String)) : (s.searchQ now ix cols ci q).Sublist (s.search now) :=
+  List.filter_sublist
+
+/-- the empty query IS the plain search (no join: presentations without credentials are returned too) -/
+theorem searchQ_empty_query (s : Store) (now : Nat) (ix : Row → List CredIx) (cols : List (String × String)) (ci : Bool) :
+    s.searchQ now ix cols ci [] = s.search now := by
+  unfold Store.searchQ
+  rw [List.filter_eq_self]
+  intro r _
+  rfl
+
+/-- every further term narrows the result; and a hit has ONE credential that fulfils every term -/
+theorem searchQ_antitone (s : Store) (now : Nat) (ix : Row → List CredIx) (cols : List (String × String)) (ci : Bool)
+    (t : String × String) (q : List (String × String)) :
+    (∀ r ∈ s.searchQ now ix cols ci (t :: q), r ∈ s.searchQ now ix cols ci q) ∧
+    (∀ r ∈ s.searchQ now ix cols ci (t :: q), ∃ c ∈ ix r, ∀ u ∈ t :: q, termMatch cols ci c u.1 u.2 = true) := by
+  refine ⟨?_, ?_⟩
+  · intro r hr
+    obtain ⟨h1, h2⟩ := List.mem_filter.mp hr
+    refine List.mem_filter.mpr ⟨h1, ?_⟩
+    simp only [List.isEmpty_cons, Bool.false_or, List.any_eq_true, List.all_cons, Bool.and_eq_true] at h2
+    obtain ⟨c, hc, _, hall⟩ := h2
+    simp only [Bool.or_eq_true, List.any_eq_true]
+    exact Or.inr ⟨c, hc, hall⟩
+  · intro r hr
+    obtain ⟨_, h2⟩ := List.mem_filter.mp hr
+    simp only [List.isEmpty_cons, Bool.false_or, List.any_eq_true, List.all_eq_true] at h2
+    obtain ⟨c, hc, hall⟩ := h2
+    exact ⟨c, hc, fun u hu => hall u hu⟩
+
+/-- **search_with_query_sound** (query text -> result): after any history, whatever the query, the credential index
+    and the collation, `Search(service, query)` on the client returns only unexpired entries whose presentation the
+    client's OWN `verifyRegistration` accepted — `search_sound` carried through `applyQuery`. -/
+theorem search_with_query_sound (d : Def) (evs : List Ev) (t0 : Nat) (hq : ∀ e ∈ evs, PermOK e)
+    (ix : Row → List CredIx) (cols : List (String × String)) (ci : Bool) (q : List (String × String)) :
+    let w := run factCfg d { t := t0 } evs
+    ∀ r ∈ w.C.searchQ w.t ix cols ci q, w.t < r.exp ∧
+      ∃ s now subj e, now ≤ w.t ∧ Acceptable d .client s now r.vp subj e := by
+  intro w r hr
+  exact search_sound d evs t0 hq r ((searchQ_sublist_search w.C w.t ix cols ci q).subset hr)
+
 /-! ### non-vacuity: a concrete directory, node and history -/
 
 def exSvc (id : String) (max : Nat) : Service :=
@@ -494,5 +554,25 @@ example : (({ seed := 5, lastTs := 3 } : Store).add 10 exForged 5 3 1).2.isOk = 
     (clientLoop (exSvc "A" 100).d 10 5 3 { seed := 5, lastTs := 3 } 0 [exForged]).1.validated = [] ∧
     (clientLoop (exSvc "A" 100).d 10 5 3 { seed := 5, lastTs := 3 } 0 [exForged]).1.rows.length = 1 ∧
     (clientLoop (exSvc "A" 100).d 10 5 3 { seed := 5, lastTs := 3 } 0 [exNVP "A" "s6" "f2" 40]).1.validated = [0] := by decide
+
+/-- the wildcard translation and the same-credential rule on concrete data: issuer and authServerURL sit on DIFFERENT
+    credentials, so asking for both finds nothing although each alone does -/
+def exCols : List (String × String) := [("id", "credential.id"), ("issuer", "credential.issuer"), ("type", "credential.type"), ("credentialSubject.id", "credential.subject_id")]
+def exIx : Row → List CredIx := fun _ =>
+  [{ id := "c1", issuer := "did:example:authority", type := some "TestCredential", subjectId := "did:example:s1", props := [("credentialSubject.org", "x")] },
+   { id := "c2", issuer := "did:example:s1", type := some "NutsEmployeeCredential", subjectId := "did:example:s1", props := [("credentialSubject.authServerURL", "https://verif.example/oauth2/s1")] }]
+def exQStore : Store := (clientLoop (exSvc "A" 100).d 10 5 3 { seed := 5, lastTs := 3 } 0 [exNVP "A" "s6" "f2" 40]).1
+example : parseQueryValue "*" = .notNull ∧ parseQueryValue " * " = .notNull ∧ parseQueryValue "a*" = .like ['a', '%'] ∧
+    parseQueryValue "*a" = .like ['%', 'a'] ∧ parseQueryValue "*a*" = .like ['%', 'a', '%'] ∧ parseQueryValue "**" = .like ['%', '%'] ∧
+    parseQueryValue "a*b" = .eq ['a', '*', 'b'] ∧ parseQueryValue "" = .eq [] := by decide
+example : (exQStore.searchQ 20 exIx exCols true []).length = 1 ∧
+    (exQStore.searchQ 20 exIx exCols true [("issuer", "did:example:authority")]).length = 1 ∧
+    (exQStore.searchQ 20 exIx exCols true [("credentialSubject.authServerURL", "*/oauth2/*")]).length = 1 ∧
+    (exQStore.searchQ 20 exIx exCols true [("issuer", "did:example:authority"), ("credentialSubject.authServerURL", "*")]).length = 0 ∧
+    (exQStore.searchQ 20 exIx exCols true [("issuer", "DID:example:*")]).length = 1 ∧
+    (exQStore.searchQ 20 exIx exCols false [("issuer", "DID:example:*")]).length = 0 ∧
+    (exQStore.searchQ 20 exIx exCols true [("issuer", "DID:example:authority")]).length = 0 ∧
+    (exQStore.searchQ 20 exIx exCols true [("credentialSubject.nothing", "*")]).length = 0 ∧
+    (exQStore.searchQ 50 exIx exCols true []).length = 0 := by decide
 
 end Nuts.C16.Props
